@@ -167,6 +167,7 @@ fn templates(r: &mut Rng) -> Vec<Op> {
         Op::Chain,
         Op::ChainFirstN { n: 1 + r.below(4) },
         Op::DeferSignal,
+        Op::DemuxEnum,
         Op::Persist,
         Op::MultisetDelta,
         Op::DeferTick { lazy: false, back: None },
@@ -197,6 +198,7 @@ fn templates(r: &mut Rng) -> Vec<Op> {
         v.push(Op::LatticeFold { pers: p.clone() });
         v.push(Op::LatticeReduce { pers: p.clone() });
         v.push(Op::State { pers: p.clone() });
+        v.push(Op::StateBy { pers: p.clone() });
     }
     for p in pers2() {
         v.push(Op::Zip { pers: p.clone() });
@@ -227,6 +229,7 @@ fn adapters() -> Vec<Option<Op>> {
         Some(Op::Map(MapFn::ToRangeVec)),
         Some(Op::Map(MapFn::ToMax)),
         Some(Op::Map(MapFn::ToSet)),
+        Some(Op::Map(MapFn::ToShape)),
     ]
 }
 
@@ -269,6 +272,9 @@ pub fn gen_prog(r: &mut Rng, cov: &Coverage, cfg: &GenCfg) -> Prog {
             let n = r.below(5);
             let items = (0..n).map(|_| rand_item(r, &ty)).collect();
             b.push(Op::SrcIter { items, ty }, vec![], &[]).unwrap();
+        }
+        if r.chance(1, 8) && cfg.allow.is_none() {
+            b.push(Op::Initialize, vec![], &[]).unwrap();
         }
         let target = cfg.min_ops + r.below(cfg.max_ops - cfg.min_ops + 1);
         let mut attempts = 0;
